@@ -235,6 +235,66 @@ func init() {
 				}
 				c.Check(got == fname, fmt.Sprintf("%s / column %d -> %s", fnKey(dec), k, fname), st.Pos(), "decoder reads %s from column %d; encoder writes %s there", fname, k, got)
 			})
+			// table-driven decoding: `for i, dst := range [...]*uint64{&item.A, &item.B, ...} { v := parse(arr[base+i]); *dst = v }`
+			eachInstr(dec, func(ins ssa.Instruction) {
+				st, ok := ins.(*ssa.Store)
+				if !ok {
+					return
+				}
+				// dst = table[i]: element of a local array (ranged over by value) or of a local slice / array by address
+				var table *ssa.Alloc
+				var loopIdx ssa.Value
+				switch a := st.Addr.(type) {
+				case *ssa.Index:
+					if ld, ok := a.X.(*ssa.UnOp); ok && ld.Op == token.MUL {
+						table, _ = ld.X.(*ssa.Alloc)
+					}
+					loopIdx = a.Index
+				case *ssa.UnOp:
+					if ia, ok := a.X.(*ssa.IndexAddr); ok && a.Op == token.MUL {
+						table, _ = ia.X.(*ssa.Alloc)
+						if sl, ok := ia.X.(*ssa.Slice); ok {
+							table, _ = sl.X.(*ssa.Alloc)
+						}
+						loopIdx = ia.Index
+					}
+				}
+				if table == nil || loopIdx == nil {
+					return
+				}
+				base, ok := columnBaseOf(st.Val, loopIdx, 0)
+				if !ok {
+					return
+				}
+				for _, r := range refsOf(table) {
+					el, ok := r.(*ssa.IndexAddr)
+					if !ok {
+						continue
+					}
+					j, isConst := constInt(el.Index)
+					if !isConst {
+						continue
+					}
+					for _, r2 := range refsOf(el) {
+						es, ok := r2.(*ssa.Store)
+						if !ok || es.Addr != ssa.Value(el) {
+							continue
+						}
+						fa, ok := es.Val.(*ssa.FieldAddr)
+						if !ok || !typeIs(fa.X.Type(), "core/base", "MetricItem") {
+							continue
+						}
+						n++
+						k := base + j
+						fname := fieldName(fa.X.Type(), fa.Field)
+						got := "<none>"
+						if int(k) < len(cols) {
+							got = cols[k]
+						}
+						c.Check(got == fname, fmt.Sprintf("%s / column %d -> %s", fnKey(dec), k, fname), es.Pos(), "decoder reads %s from column %d (entry %d of its field table); encoder writes %s there", fname, k, j, got)
+					}
+				}
+			})
 			if n == 0 {
 				c.Violate(fnKey(dec)+" / columns", dec.Pos(), "decoder stores no field from a column")
 			}
@@ -356,6 +416,37 @@ func rootField(v ssa.Value, d int) string {
 }
 
 // columnOf finds the constant index k such that v is computed from arr[k] of a strings.Split result.
+// columnBaseOf: v was parsed from column base+idx of the split line, idx being the given (loop index) value.
+func columnBaseOf(v ssa.Value, idx ssa.Value, d int) (int64, bool) {
+	if d > 6 {
+		return 0, false
+	}
+	switch x := stripConv(v).(type) {
+	case *ssa.UnOp:
+		if ia, ok := x.X.(*ssa.IndexAddr); ok && strings.Contains(accessPath(ia.X), "strings.Split(") {
+			if bo, ok := ia.Index.(*ssa.BinOp); ok && bo.Op == token.ADD {
+				if k, isK := constInt(bo.X); isK && sameValue(bo.Y, idx) {
+					return k, true
+				}
+				if k, isK := constInt(bo.Y); isK && sameValue(bo.X, idx) {
+					return k, true
+				}
+			}
+			if sameValue(ia.Index, idx) {
+				return 0, true
+			}
+		}
+		return columnBaseOf(x.X, idx, d+1)
+	case *ssa.Extract:
+		return columnBaseOf(x.Tuple, idx, d+1)
+	case *ssa.Call:
+		if len(x.Call.Args) > 0 {
+			return columnBaseOf(x.Call.Args[0], idx, d+1)
+		}
+	}
+	return 0, false
+}
+
 func columnOf(v ssa.Value, d int) (int64, bool) {
 	if d > 6 {
 		return 0, false
@@ -527,35 +618,55 @@ func init() {
 			// (1) the cached offset leaves getOffsetStartAndFileIdx only for the cached file
 			n, okAll := 0, true
 			why := ""
+			offIdx := 0 // which component of the result carries the offset: result 0, or a field of the result struct
+			nparts := len(get.Signature.Results().At(0).Type().String())
+			_ = nparts
+			parts := 1
+			if st, ok := get.Signature.Results().At(0).Type().Underlying().(*types.Struct); ok {
+				parts = st.NumFields()
+			}
 			for _, r := range returnsOf(get) {
-				for _, cs := range splitPhiCases(r.Results[0], r.Block(), nil, 0) {
-					if !strings.Contains(accessPath(cs.val), ".curOffsetInIdx") {
+				for k := 0; k < parts; k++ {
+					var comp ssa.Value
+					if parts == 1 {
+						comp = r.Results[0]
+					} else {
+						comp = returnPart(r, k)
+					}
+					if comp == nil {
 						continue
 					}
-					n++
-					fs := canonFacts(cs.block, cs.extra...)
-					same := false
-					for k := range fs {
-						if strings.Contains(k, " == ") && strings.Contains(k, ".cachedPos.metricFilename") && strings.Contains(k, "{[]string}") {
-							same = true
+					for _, cs := range splitPhiCases(comp, r.Block(), nil, 0) {
+						if !strings.Contains(accessPath(cs.val), ".curOffsetInIdx") {
+							continue
 						}
-					}
-					if !same {
-						okAll = false
-						why = factList(fs)
+						offIdx = k
+						n++
+						fs := canonFacts(cs.block, cs.extra...)
+						same := false
+						for k := range fs {
+							if strings.Contains(k, " == ") && strings.Contains(k, ".cachedPos.metricFilename") && strings.Contains(k, "{[]string}") {
+								same = true
+							}
+						}
+						if !same {
+							okAll = false
+							why = factList(fs)
+						}
 					}
 				}
 			}
 			c.Check(n > 0 && okAll, fnKey(get)+" / cached-offset-only-for-cached-file", get.Pos(), "%d alternative(s) hand out cachedPos.curOffsetInIdx; each under `filenames[j] == cachedPos.metricFilename` (facts of the offending one: [%s])", n, why)
 			// (2) in the scan, the cached offset is used for the first file only
-			var res0 ssa.Value
-			eachInstr(srch, func(ins ssa.Instruction) {
-				if ex, ok := ins.(*ssa.Extract); ok && ex.Index == 0 {
-					if call, ok := ex.Tuple.(*ssa.Call); ok && isStaticCallTo(call, get) {
-						res0 = ex
-					}
-				}
-			})
+			// the offset component of a getOffsetStartAndFileIdx result (tuple element or struct field, however it is read)
+			isRes0 := func(v ssa.Value) bool {
+				call, idx, ok := callPart(v)
+				return ok && idx == offIdx && isStaticCallTo(call, get)
+			}
+			isOtherPart := func(v ssa.Value) bool {
+				call, idx, ok := callPart(v)
+				return ok && idx != offIdx && isStaticCallTo(call, get)
+			}
 			m := 0
 			for _, ci := range callsIn(srch) {
 				if !isStaticCallTo(ci, find) {
@@ -568,7 +679,7 @@ func init() {
 					if z, isC := constInt(cs.val); isC && z == 0 {
 						continue
 					}
-					if res0 != nil && cs.val == res0 {
+					if isRes0(cs.val) {
 						// the edge carrying the cached offset must not come from inside the loop (i.e. be reachable from the call)
 						if cs.block != ci.Block() || len(cs.extra) > 0 {
 							if !blockReach(ci.Block())[cs.block] && cs.block != ci.Block() {
@@ -579,6 +690,11 @@ func init() {
 						byNumber := false
 						for k := range canonFacts(cs.block, cs.extra...) {
 							if strings.Contains(k, " == ") && strings.Contains(k, "getOffsetStartAndFileIdx(") && strings.Contains(k, "#1") {
+								byNumber = true
+							}
+						}
+						for _, ft := range append(append([]Fact{}, condFacts(cs.block)...), cs.extra...) {
+							if bo, ok := ft.Cond.(*ssa.BinOp); ok && bo.Op == token.EQL && ft.Truth && (isOtherPart(bo.X) || isOtherPart(bo.Y)) {
 								byNumber = true
 							}
 						}
